@@ -18,7 +18,8 @@ def setup(register, COMMON_TB):
         trusted_base=COMMON_TB + [
             "ngx/Lexer.v + ngx/Eval.v: NGINX tokenizer, server_name/location selection, rewrite-phase and split_clients semantics written from the NGINX documentation (no NGINX binary in the sandbox)",
             "Njs part of ngx/Eval.v: transcription of httpmatches.js, compared with the real module under node 20 on every run (third part); the mock of the njs request object (harness/njs/run.mjs: headersIn case-insensitive with one value per name, args with arrays for repeated keys, querystring of node in place of njs's) is trusted",
-            "k8s/Spec.v: the reading of Gateway API routing semantics used as specification",
+            "k8s/Spec.v and k8s/SpecFwd.v: the reading of Gateway API routing semantics (which rule answers; what is forwarded) used as specification",
+            "ngx/EvalFwd.v: NGINX semantics of the rewrite phase after an internal redirect, of proxy_pass with and without a URI part, of map lookups with an empty source value (regular expressions are not tried), of proxy_set_header with an empty value",
             "controller-runtime fake client as API server; file manager and NGINX runtime manager are recording fakes",
         ],
         assumptions=["requests avoid prefixes with a trailing slash and NGF-internal location names",
